@@ -719,7 +719,10 @@ def gen_newreq_program(rng):
     if shared is not None: steps.append(['E', str(shared), '3'])
     if 41 in p.sources: steps.append(['E', '41', '2'])
     if 32 in p.sources: steps.append(['E', '32', '5'])
-    first = [['S', '1', 'q', '0'], ['S', '1', 'q', '1']] + ([['S', '1', 'q', str(chain[0])]] if chain else []) + [['S', '1', 'q', str(x)] for x in extra_first]
+    # in a quarter of the cases B (and everything below it) is unknown to the instance when the bottom-up build starts: A's new
+    # require then runs B through the first-time path (executed at once, never scheduled), and A goes on afterwards
+    b_new = rng.random() < 0.25
+    first = [['S', '1', 'q', '0']] + ([] if b_new else [['S', '1', 'q', '1']]) + ([['S', '1', 'q', str(chain[0])]] if chain else []) + [['S', '1', 'q', str(x)] for x in extra_first]
     rng.shuffle(first)
     steps += first
     changed = [0] + [1 + i for i in range(k) if rng.random() < 0.85] + [x for x in extra_srcs if rng.random() < 0.9]
